@@ -4,18 +4,26 @@ from __future__ import annotations
 import ast
 from urllib.parse import urldefrag, urljoin, urlsplit
 
-from sa.astx import module_consts
+from sa.astx import NotConst, call_attr, call_name, const_eval, lin_expect, lincmp, module_consts, src, walk_local
+from sa.source import class_assigns
 from sa.selftest import Mutant, Silent
 from sa.source import AnalysisError
-from sa.props._lib_f import InterpError, MDeferred, MExc, MFailure, ModelRaised, NullLogger, World
+from sa.props._lib_f import (Abstain, InterpError, MDeferred, MExc, MFailure, ModelRaised, NullLogger, World, assign_sites, call_sites, from_here, named_calls, norm_method,
+                             param_names, structural)
 
 PROPERTY = "C27"
 CL = "web/client.py"
 HH = "web/http_headers.py"
 AB = "web/_abnf.py"
 Q = "twisted.web.client."
-TECHNIQUE = "finite-history interpretation of RedirectAgent against a redirect oracle"
+TECHNIQUE = "limit-test dominance, def-use pairing and must-pass-through stripping on the normalised agent; status x method table exhaustively; bounded redirect histories"
 EXPLANATION = (
+    "STRUCTURAL on the normalised RedirectAgent: the follow-up request is dominated by `redirectCount < limit`, the count handed on is redirectCount + 1 and starts at 0; the URI "
+    "requested is the one remembered for the next hop and is _resolveLocation(<URI of the receiving request>, Location) (F27); on every path with headers the request is reached "
+    "only through the `not in _sensitiveHeaderNames` rebuild or the same-origin edge of a scheme/host/port test (must-pass-through); status tables: disjoint, complete, 307/308 "
+    "never method-switching (F27b known), default sensitive names present.  FINITE-EXHAUSTIVE: every status-table member / non-member x method class (GET, HEAD, other) of both "
+    "agents; limit classes 0 / 1 / 2 / 20 / default through __init__.  BOUNDED second layer (bounded evidence only for: URL resolution over chains, exact limit counts, credential "
+    "confinement over origin histories incl. configured names): "
     "RedirectAgent / BrowserLikeRedirectAgent are instantiated as model objects whose methods are the repository's own functions (interpreted over the AST; the inner "
     "agent, Deferred, Headers, URI parsing are synchronous checker models, urljoin is the stdlib's; nothing of twisted is imported or run) and driven through redirect "
     "histories; every request issued to the inner agent is compared with an oracle: (a) each target is the Location resolved against the URI of the request that "
@@ -26,6 +34,12 @@ EXPLANATION = (
     "followed / refused, method kept for 307/308 and switched to GET exactly for 303 (and 301/302 of the browser-like agent); known finding F27b: the browser-like "
     "agent switches POST to GET on 308. Not decided: URL resolution arithmetic of urljoin itself."
 )
+RULE_KINDS = {
+    "limit/dominates-follow": "structural", "limit/count-increases": "structural", "pairing/resolve-base": "structural", "pairing/next-hop-structural": "structural",
+    "credentials/must-pass-strip": "structural", "credentials/default-names": "structural", "tables/": "structural",
+    "method/status-table": "finite-exhaustive", "limit/configured-value": "finite-exhaustive",
+    "pairing/next-hop": "bounded", "pairing/previous-response": "bounded", "limit/follows-at-most": "bounded", "limit/no-location": "bounded", "credentials/confined-to-origin": "bounded",
+}
 ASSUMPTIONS = ["Deferred.addCallback(f, *a) calls f(result, *a); the inner agent answers each request once", "urllib.parse.urljoin/urldefrag are the functions twisted.web.client imports"]
 
 CODES = {"MOVED_PERMANENTLY": 301, "FOUND": 302, "SEE_OTHER": 303, "TEMPORARY_REDIRECT": 307, "PERMANENT_REDIRECT": 308, "OK": 200}
@@ -137,8 +151,203 @@ def _run(w, cls, script, method=b"GET", uri=b"http://a.example/x/y", headers=Non
     return inner, ("ok", r)
 
 
+# ==================================================================================================================================
+# STRUCTURAL layer on the normalised RedirectAgent (private helpers inlined, pure temporaries substituted)
+# ==================================================================================================================================
+KEEP_AGENT = {"request", "_handleRedirect", "_handleResponse", "_resolveLocation", "__init__"}
+
+
+def _bind(call_args, fdef, skip):
+    ps = param_names(fdef)[skip:]
+    return {p_: a_ for p_, a_ in zip(ps, call_args)}
+
+
+def _s_redirect(ctx):
+    hr = norm_method(ctx, CL, "RedirectAgent", "_handleRedirect", keep=KEEP_AGENT)
+    hp = norm_method(ctx, CL, "RedirectAgent", "_handleResponse", keep=KEEP_AGENT)
+    g = ctx.cfg(hr)
+    q = Q + "RedirectAgent._handleRedirect"
+    ps = param_names(hr)
+    if ps[:6] != ["self", "response", "method", "uri", "headers", "redirectCount"] or len(ps) < 7:
+        raise Abstain(f"unexpected signature {ps}")
+    RU = ps[6]
+    reqs = named_calls(g, "self._agent.request")
+    conts = [(n, c) for n, c in call_sites(g, lambda c: call_attr(c) == "addCallback" and c.args and src(c.args[0]) == "self._handleResponse")]
+    if len(reqs) != 1 or len(conts) != 1:
+        raise Abstain(f"{len(reqs)} inner-agent requests / {len(conts)} continuations in the normalised _handleRedirect")
+    rn, rc = reqs[0]
+    cn, cc = conts[0]
+    # (1) the limit test dominates the follow-up request; the count strictly increases
+    follow = lin_expect({"redirectCount": -1, "self._redirectLimit": 1}, 1)        # redirectCount < limit
+    limit_tests = [(t, lab) for t, lab in g.edge_guards(rn) if lincmp(g.node(t).ast) is not None and "redirectCount" in src(g.node(t).ast) and "_redirectLimit" in src(g.node(t).ast)]
+    if not limit_tests:
+        all_tests = [t for t in g.ids(lambda x: x.kind == "test") if "redirectCount" in src(g.node(t).ast)]
+        if all_tests:
+            ctx.violation("limit/dominates-follow", q + " | self._agent.request(...)", "the next request is not dominated by the redirect-limit test (some path follows a redirect without checking the count)")
+        else:
+            raise Abstain("no comparison of redirectCount with the limit in the normalised _handleRedirect")
+    else:
+        ok = any(lincmp(g.node(t).ast, negate=(lab == "F")) == follow for t, lab in limit_tests)
+        ctx.check(ok, "limit/dominates-follow", q + " | self._agent.request(...)",
+                  f"the request is made under {[(src(g.node(t).ast), lab) for t, lab in limit_tests]}, which is not `redirectCount < limit` (at most `limit` redirects may be followed)")
+    b = _bind(cc.args[1:], hp, 2)
+    if "redirectCount" not in b:
+        raise Abstain("the continuation does not pass redirectCount positionally")
+    lc = lincmp(ast.Compare(left=b["redirectCount"], ops=[ast.GtE()], comparators=[ast.Constant(value=0)]))
+    ctx.check(lc == lin_expect({"redirectCount": 1}, -1), "limit/count-increases", q + " | count handed to the next hop", f"the next hop is given `{src(b['redirectCount'])}`, not redirectCount + 1")
+    rq = norm_method(ctx, CL, "RedirectAgent", "request", keep=KEEP_AGENT)
+    first = [c for c in walk_local(rq) if isinstance(c, ast.Call) and call_attr(c) == "addCallback" and c.args and src(c.args[0]) == "self._handleResponse"]
+    if len(first) == 1:
+        b0 = _bind(first[0].args[1:], hp, 2)
+        ctx.check("redirectCount" in b0 and isinstance(b0["redirectCount"], ast.Constant) and b0["redirectCount"].value == 0, "limit/count-increases", Q + "RedirectAgent.request | initial count",
+                  "the redirect count does not start at 0")
+    # (2) pairing: the URI requested is what the next hop will resolve against; it is the Location resolved against the receiving request's URI
+    target = rc.args[1] if len(rc.args) > 1 else None
+    if target is None or RU not in b:
+        if RU not in b:
+            ctx.violation("pairing/next-hop-structural", q + " | continuation", "the next hop is not told which URI was requested: a relative Location there is resolved against the original URI")
+        else:
+            raise Abstain("request target not positional")
+    else:
+        ctx.check(src(b[RU]) == src(target), "pairing/next-hop-structural", q + " | continuation", f"the next hop remembers `{src(b[RU])}` while `{src(target)}` was requested")
+        tdef = target
+        if isinstance(target, ast.Name):
+            defs = [s_.value for s_ in walk_local(hr) if isinstance(s_, ast.Assign) and any(isinstance(t, ast.Name) and t.id == target.id for t in s_.targets)]
+            if len(defs) != 1:
+                raise Abstain(f"{len(defs)} definitions of the request target")
+            tdef = defs[0]
+        if not (isinstance(tdef, ast.Call) and call_name(tdef) == "self._resolveLocation" and len(tdef.args) == 2):
+            raise Abstain("the request target is not self._resolveLocation(base, location)")
+        base = tdef.args[0]
+        base_src = src(base)
+        if base_src == "uri":
+            ctx.violation("pairing/resolve-base", q + " | base of the resolution", "the Location is resolved against the ORIGINAL uri, not against the URI of the request that received the redirect")
+        elif base_src == RU:
+            # RU may be defaulted from uri only when it is None
+            for n_, st in assign_sites(g, lambda x: isinstance(x, ast.Name) and x.id == RU):
+                okd = src(st.value) == "uri" and any(src(g.node(t).ast) in (f"{RU} is None",) and lab == "T" or src(g.node(t).ast) == f"{RU} is not None" and lab == "F"
+                                                      for t, lab in g.edge_guards(n_))
+                ctx.check(okd, "pairing/resolve-base", q + f" | {RU} = ...", f"{RU} is overwritten other than by the `is None -> uri` default")
+            ctx.ok("pairing/resolve-base", q + " | base of the resolution")
+        elif isinstance(base, ast.IfExp) and {src(base.body), src(base.orelse)} == {"uri", RU} and RU in src(base.test) and "None" in src(base.test):
+            none_means_uri = (src(base.body) == "uri") == ("is None" in src(base.test) and "is not None" not in src(base.test))
+            ctx.check(none_means_uri, "pairing/resolve-base", q + " | base of the resolution", "the conditional base picks the original uri when a request URI IS known")
+        else:
+            raise Abstain(f"unrecognised resolution base `{base_src}`")
+    # (3) credentials: on every path with headers the request is reached only through the strip site or the same-origin edge of the test guarding it
+    hname = src(rc.args[2]) if len(rc.args) > 2 else None
+    strips = []
+    for n_, st in assign_sites(g, lambda x: src(x) == hname):
+        val = st.value if isinstance(st, ast.Assign) else None
+        comp = next((x for x in ast.walk(val) if isinstance(x, (ast.DictComp, ast.ListComp, ast.GeneratorExp))), None) if val is not None else None
+        if comp is None or len(comp.generators) != 1 or call_attr(comp.generators[0].iter) != "getAllRawHeaders":
+            continue
+        gen = comp.generators[0]
+        nm = src(gen.target.elts[0]) if isinstance(gen.target, ast.Tuple) else None
+        filt = [i for i in gen.ifs if isinstance(i, ast.Compare) and len(i.ops) == 1 and isinstance(i.ops[0], ast.NotIn) and src(i.left) == nm and src(i.comparators[0]) == "self._sensitiveHeaderNames"]
+        if len(filt) == 1 and len(gen.ifs) == 1:
+            strips.append(n_)
+        elif any("_sensitiveHeaderNames" in src(i) for i in gen.ifs):
+            ctx.violation("credentials/must-pass-strip", q + " | header filter", f"the rebuilt header set keeps `{[src(i) for i in gen.ifs]}` instead of dropping every name in self._sensitiveHeaderNames")
+            return
+    if not strips:
+        raise Abstain("no `Headers({... if name not in self._sensitiveHeaderNames})` rebuild of the request headers in the normalised _handleRedirect")
+    # the origin decision: atomic tests comparing .scheme / .host / .port (after substitution of the flag), or a tuple comparison of the three
+    def origin_attrs(e):
+        return {k for k in ("scheme", "host", "port") if f".{k}" in src(e)}
+    flag_defs = {}
+    for s_ in walk_local(hr):
+        if isinstance(s_, ast.Assign) and len(s_.targets) == 1 and isinstance(s_.targets[0], ast.Name) and origin_attrs(s_.value):
+            flag_defs[s_.targets[0].id] = s_.value
+    otests = []
+    for t in g.ids(lambda x: x.kind == "test"):
+        e = g.node(t).ast
+        attrs = origin_attrs(e) or (origin_attrs(flag_defs[e.id]) if isinstance(e, ast.Name) and e.id in flag_defs else set())
+        if not attrs:
+            continue
+        e2 = flag_defs[e.id] if isinstance(e, ast.Name) and e.id in flag_defs else e
+        if isinstance(e2, ast.Compare) and len(e2.ops) == 1 and isinstance(e2.ops[0], (ast.Eq, ast.NotEq)):
+            equal_edge = "T" if isinstance(e2.ops[0], ast.Eq) else "F"
+        elif isinstance(e2, ast.BoolOp) and isinstance(e2.op, ast.And) and all(isinstance(v, ast.Compare) and isinstance(v.ops[0], ast.Eq) for v in e2.values):
+            equal_edge = "T"
+        elif isinstance(e2, ast.BoolOp):
+            ctx.violation("credentials/must-pass-strip", q + " | same-origin test", f"same origin is decided by `{src(e2)[:90]}`: not the conjunction of scheme, host and port equality")
+            return
+        else:
+            raise Abstain(f"unrecognised origin test `{src(e2)[:60]}`")
+        otests.append((t, equal_edge, attrs))
+    if not otests:
+        raise Abstain("no scheme/host/port comparison found in the normalised _handleRedirect")
+    covered = set().union(*[a_ for _, _, a_ in otests])
+    ctx.check(covered == {"scheme", "host", "port"}, "credentials/must-pass-strip", q + " | same-origin test", f"the origin comparison covers only {sorted(covered)} (scheme, host and port all matter)")
+
+    def no_exc_hdr(a_, b_, l_):
+        if l_ == "exc":
+            return False
+        e = g.node(a_).ast if g.node(a_).kind == "test" else None
+        if e is not None and src(e) in (hname, "headers") and l_ == "F":
+            return False                      # no headers to confine
+        if e is not None and isinstance(e, ast.Compare) and len(e.ops) == 1 and {src(e.left), src(e.comparators[0])} in ({hname, "None"}, {"headers", "None"}):
+            is_none_edge = "T" if isinstance(e.ops[0], (ast.Is, ast.Eq)) else "F"
+            if l_ == is_none_edge:
+                return False                  # headers is None: nothing to confine
+        return True
+    for t, equal_edge, attrs in otests:
+        ne = [d for d, l in g.succ[t] if l == ("F" if equal_edge == "T" else "T")]
+        w = g.path(ne, [rn], avoid=strips, edge_ok=no_exc_hdr) if ne and not set(ne) <= set(strips) else None
+        ctx.check(w is None, "credentials/must-pass-strip", q + f" | differing {'/'.join(sorted(attrs))}",
+                  f"when the {'/'.join(sorted(attrs))} of the target differs from the original request's, the next request can be reached without the sensitive headers being removed",
+                  witness=g.describe(w))
+    w = g.path([g.entry], [rn], avoid=set(strips) | {t for t, _, _ in otests}, edge_ok=no_exc_hdr)
+    ctx.check(w is None, "credentials/must-pass-strip", q + " | bypass", "a redirect that carries headers can reach the next request without the origin comparison (e.g. a shortcut for "
+              "'relative' Locations: `//other.example/x` has no '://' yet changes the host)", witness=g.describe(w))
+
+
+def _s_tables(ctx):
+    env = module_consts(ctx.mod("web/_responses.py"))
+    expected_switch = {"RedirectAgent": {303}, "BrowserLikeRedirectAgent": {301, 302, 303}}
+    for cname, switch_doc in expected_switch.items():
+        ca = class_assigns(ctx.cls(CL, cname))
+        tabs = {}
+        for t in ("_redirectResponses", "_seeOtherResponses"):
+            v = ca.get(t)
+            if not isinstance(v, (ast.List, ast.Tuple, ast.Set)):
+                raise Abstain(f"{cname}.{t} is not a literal table")
+            vals = set()
+            for e in v.elts:
+                if isinstance(e, ast.Attribute) and src(e.value) == "http" and e.attr in env:
+                    vals.add(env[e.attr])
+                else:
+                    try:
+                        vals.add(const_eval(e, env))
+                    except NotConst:
+                        raise Abstain(f"{cname}.{t} has a non-constant element {src(e)}")
+            tabs[t] = vals
+        qq = Q + cname + "."
+        ctx.check(not (tabs["_redirectResponses"] & tabs["_seeOtherResponses"]), "tables/disjoint", qq + "<tables>", "a status code is in both tables")
+        for code in (307, 308):
+            ctx.check(code not in tabs["_seeOtherResponses"], "tables/method-preserved-307-308", qq + f"_seeOtherResponses | {code}",
+                      f"{code} is handled as see-other: the method is switched to GET although {code} must preserve it (RFC 9110 15.4.8/15.4.9)")
+        for code in (301, 302, 303, 307, 308):
+            ctx.check(code in tabs["_redirectResponses"] | tabs["_seeOtherResponses"], "tables/complete", qq + f"<tables> | {code}", f"redirect status {code} is not followed")
+        extra = tabs["_seeOtherResponses"] - switch_doc - {307, 308}
+        ctx.check(not extra, "tables/documented-switch", qq + "_seeOtherResponses", f"{sorted(extra)} switch the method to GET although the class does not document it")
+    mod = ctx.mod(CL)
+    dflt = mod.module_assign("_defaultSensitiveHeaders")
+    try:
+        names = set(const_eval(dflt)) if dflt is not None else None
+    except NotConst:
+        names = None
+    if names is None:
+        raise Abstain("_defaultSensitiveHeaders is not a constant set")
+    need = {b"Authorization", b"Cookie", b"Proxy-Authorization"}
+    ctx.check(need <= names, "credentials/default-names", Q + "_defaultSensitiveHeaders", f"missing from the default sensitive set (in canonical capitalisation): {sorted(need - names)}")
+
+
 def check(ctx):
-    for name, fn in (("resolution", _resolution), ("limit", _limit), ("credentials", _credentials), ("methods", _methods)):
+    for name, fn in (("s-redirect", lambda c: structural(c, "limit/dominates-follow / pairing / credentials/must-pass-strip", "the bounded redirect histories", _s_redirect, c)),
+                     ("s-tables", lambda c: structural(c, "tables/*", "method/status-table (finite-exhaustive evaluation)", _s_tables, c)),
+                     ("resolution", _resolution), ("limit", _limit), ("credentials", _credentials), ("methods", _methods)):
         with ctx.section(name):
             try:
                 fn(ctx)
@@ -271,14 +480,7 @@ def _methods(ctx):
                 got_m = inner.calls[1][0] if got_follow else None
                 q = Q + agent
                 if code in (307, 308) and got_follow and got_m != method:
-                    ctx.violation("tables/method-preserved-307-308", Q + f"{agent}._seeOtherResponses | {code}",
-                                  f"{agent}: {method.decode()} answered with {code} is followed as {got_m.decode()}: the method is switched although {code} must preserve it (RFC 9110 15.4.8/15.4.9)")
-                    continue
-                if code in (307, 308) and method == b"POST" and agent == "BrowserLikeRedirectAgent" and not got_follow:
-                    ctx.ok("tables/method-preserved-307-308", Q + f"{agent}._seeOtherResponses | {code}", "not followed: method trivially preserved")
-                    continue
-                if code in (307, 308):
-                    ctx.ok("tables/method-preserved-307-308", Q + f"{agent}._seeOtherResponses | {code}" + f" | {method.decode()}")
+                    continue          # reported by the structural table rule tables/method-preserved-307-308 (known finding F27b for the browser-like agent)
                 ok = got_follow == follow and (not follow or got_m == m2) and (follow or (out[0] == "fail" and out[2] == "PageRedirect")) and (not follow or inner.calls[1][3] is None)
                 ctx.check(ok, "method/status-table", q + f" | {code} {method.decode()}",
                           f"{agent}: {method.decode()} answered with {code}: " + (f"followed as {got_m.decode()}" if got_follow else f"not followed ({out[:3]})") +
